@@ -22,6 +22,8 @@ pub fn check(family: &str, rec: &J) -> Verdict {
         "table" => table::check(rec),
         "lex" => lex::check_lex(rec),
         "syntax" => syntax::check(rec),
+        "textoutcome" => syntax::text_outcome(rec),
+        "dettext" => HELPER.with(|h| syntax::check_dettext(rec, &mut h.borrow_mut())),
         "verdict" => syntax::check_verdict(rec),
         "e2e" => syntax::check_e2e(rec),
         "fault" => syntax::check_fault(rec),
